@@ -35,10 +35,10 @@ CHECKS = {
     "C17": ("exploration", "runtime observation of the repository's own generators (precompile.go, makedocs, doc sub-command) compared structurally with the shipped artefacts; exhaustive over groups, checkers and doc rows",
             "The rule compiler is re-run offline and its output compared AST-equal with rulesdata.go; every rule group's doc comments are compared with the registered checker; makedocs is executed in a scratch layout and compared with docs/overview.md; `doc` output and check-marks are compared with the registry and the selection rule.",
             "finite space, fully enumerated", "5/C17"),
-    "C08": ("exploration", "runtime differential of the four real binaries on the same workspaces under equivalent configurations; analyzer -json edits vs Warning.Suggestion from the in-process run; other target platforms in the environment; a module declaring an old language version",
+    "C08": ("exploration", "runtime differential of the four real binaries on the same workspaces under equivalent configurations; analyzer -json edits vs Warning.Suggestion from the in-process run; other target platforms in the environment; a module declaring an old language version; packages of one run that spell a type alike with different sizes, in three orders",
             "go-critic, gocritic and go-critic-analysis are run over generated packages plus a package with in-package tests, external tests and a main under enable-all / name and tag lists (incl. name-enabled-while-tag-disabled) / every checker parameter / -go; multisets of (file,line,col,checker,message) must be equal and free of duplicates; the analyzer must offer every CLI checker and parameter flag; -json edits must equal the API's quick fixes; the twin command's sources must be byte-identical.",
             "CLI run with -checkGenerated -checkTests (the stock driver has no such filters); the CLI's default -enable list is passed to the analyzer explicitly", "5/C08"),
-    "C16": ("exploration", "runtime observation of the real CLI in constructed layouts (cwd/GOPATH/GOROOT/target relations incl. case variants, a cgo module, a command in a .test directory, flags) with a resolve-and-compare oracle on exit status, output lines and file filters",
+    "C16": ("exploration", "runtime observation of the real CLI in constructed layouts (cwd/GOPATH/GOROOT/target relations incl. case variants, a cgo module, a command in a .test directory, percent signs in file and directory names, flags) with a resolve-and-compare oracle on exit status, output lines and file filters",
             "Each file of the layout carries exactly one known trigger; printed locations are resolved back (./, $GOPATH, $GOROOT, absolute) to an existing file and line:col; exit status, exactly-once, -checkTests/-checkGenerated filtering (three-valued generated classification from ast.IsGenerated) are checked per run, incl. cwd's path occurring inside the target path and a symlinked GOROOT; CLI lines are compared with the API run.",
             "three-valued 'generated': only G+ must be filtered and only G- must never be filtered", "5/C16"),
     "C19": ("fault_enumeration", "runtime fault enumeration on the real binaries: invalid configurations x front-ends x package counts, broken target packages, the maintainers' examples of every checker made ill-typed in up to 21 ways (every checker over every such file under recover, a sample through the real command); exit status/stderr/panic-frame oracle; in-process re-entry of the analyzer's init latch",
@@ -50,7 +50,7 @@ CHECKS = {
     "C13": ("exploration", "runtime metamorphic monitoring: the maintainers' example packages are transformed (append, pad, permute) and re-analysed; the examples' own /*! */ expectations, which move with their declaration, are the oracle; identity round as control; the same transformations on generated packages with a per-declaration diagnostic multiset as oracle",
             "All 107 example packages are copied into the scratch module under T1 (append unrelated declarations), T2 (blank lines/padding declarations after the import block), T4 (permute plain functions) and combinations with seeded choices; every expected warning must still be produced and no new one may appear outside padding; order-subject checkers are exempt from permutation only.",
             "the harness reproduces linttest's configuration; an example whose untouched copy fails is excluded as a harness mismatch (listed in evidence)", "5/C13"),
-    "C14": ("exploration", "runtime monitoring of threshold families: constructs of measure n x thresholds t around every boundary through the in-process override, both CLIs and the analyzer; compiled unsafe.Sizeof program as the size oracle (aggregates, non-aggregate kinds, instantiated generic types, defined and alias arrays), also compiled for and run on 386 against all front-ends under GOARCH=386",
+    "C14": ("exploration", "runtime monitoring of threshold families: constructs of measure n x thresholds t around every boundary through the in-process override, both CLIs and the analyzer (also the values 0 and -1 for every numeric parameter); compiled unsafe.Sizeof program as the size oracle (aggregates, non-aggregate kinds, instantiated generic types, defined and alias arrays), also compiled for and run on 386 against all front-ends under GOARCH=386",
             "For every numeric parameter a family K_n is analysed at thresholds around n; the documented direction predicate decides each (n,t) pair (which implies unit step and monotonicity), neighbouring thresholds are compared by set inclusion, byte sizes quoted in messages are compared with a compiled unsafe.Sizeof program for padded structs, and each parameter value is passed in-process, through both CLIs and through the analyzer flag with equal results; boolean parameters run on discriminating inputs.",
             "commentedOutCode's 'length of the comment' has no unambiguous unit anchor (go/ast's Text() ends with a newline): only unit step and monotonicity are demanded there", "5/C14"),
     "C15": ("exploration", "runtime monitoring of every diagnostic produced under target versions 1.13-1.23 (embedded rules, hand-written checkers, dynamic ruleguard on the same rule source) against a first-appearance table built from GOROOT/api; differential unset vs newest, 1.N vs go1.N, front-end -go vs SetGoVersion",
